@@ -104,6 +104,20 @@ def inputs(ctx):
     for k, v in enumerate(allv):
         if v[0] != "align":
             ins.append({"id": "im%d" % k, "k": "immut", "v": v})
+    # magnitudes that take every branch of relativizing and fitting: origin + extent beyond the
+    # safe area on either axis, exactly on it, inside it; with and without extent / padding
+    mags = ["0", "5", "10", "35", "60", "80", "85", "90", "95", "100"]
+    n = len(allv)
+    for u in (["%", "px"] if ctx.quick else ["%", "px", "c", "em", "pt"]):
+        pts = [(a, b) for a in mags for b in mags]
+        sel = pts if not ctx.quick else [pts[i] for i in range(0, len(pts), 3)]
+        for (ox, oy) in sel:
+            for (ex, ey) in [(None, None), ("80", "80"), ("80", "10"), ("10", "80"), ("55", "70"), ("5", "5")]:
+                for pad in (None, ("padding",) + (("size", "5", u),) * 4):
+                    v = ("layout", ("point", ("size", ox, u), ("size", oy, u)),
+                         None if ex is None else ("stretch", ("size", ex, u), ("size", ey, u)), pad, None, None)
+                    ins.append({"id": "im%d" % n, "k": "immut", "v": v})
+                    n += 1
     return ins
 
 
@@ -212,18 +226,35 @@ def execute(inp):
     if k == "immut":
         o = _mk(inp["v"])
         before = repr(o.serialized())
-        for op in ("as_percentage_of", "fit_to_screen"):
+        after = ""
+        for op in ("as_percentage_of", "fit_to_screen", "chain", "observers"):
             try:
                 if op == "as_percentage_of":
                     if inp["v"][0] == "size":
                         o.as_percentage_of(video_width=640)
                     else:
                         o.as_percentage_of(640, 360)
+                elif op == "chain":
+                    # the relativized value is a receiver too
+                    r = o.as_percentage_of(video_width=640) if inp["v"][0] == "size" else o.as_percentage_of(640, 360)
+                    rb = repr(r.serialized())
+                    before += rb
+                    after += rb
+                    if hasattr(r, "fit_to_screen"):
+                        try:
+                            r.fit_to_screen()
+                        finally:
+                            after = after[:-len(rb)] + repr(r.serialized())
+                elif op == "observers":
+                    hash(o), o == o, bool(o), str(o), repr(o)
+                    for name in ("is_relative", "is_valid", "to_xml_attribute"):
+                        if hasattr(o, name):
+                            getattr(o, name)()
                 elif hasattr(o, op):
                     getattr(o, op)()
             except Exception:
                 pass
-        return {"k": "immut", "before": before, "after": repr(o.serialized())}
+        return {"k": "immut", "before": before, "after": repr(o.serialized()) + after}
     raise ValueError(k)
 
 
